@@ -48,7 +48,8 @@ VARIANTS = ["recv1", "recv2", "recv3", "recv5", "recv_rand", "send1",
             "send_rand", "wb_read3", "wb_write2", "wb_both", "sched_rev",
             "sched_ahead0", "sched_ahead1", "sched_random", "frag1", "frag2",
             "frag3", "frag4", "frag_rand", "coalesce", "recsize1", "recsize7",
-            "recsize64", "recv1_frag2", "asm", "threads", "threads_chunk"]
+            "recsize64", "recv1_frag2", "asm", "threads", "threads_chunk",
+            "merge", "merge_frag57", "merge_frag_rand", "asm_wb", "asm_recv1"]
 
 
 def abstract(R, secrets=True):
@@ -126,9 +127,63 @@ def refragment(kind, rng):
     hold = {"c2s": b"", "s2c": b""}
     stats = {"n": 0}
 
+    ver_of = {}
+
+    def emit(d):
+        """the held handshake bytes of direction d as records"""
+        body, hold[d] = hold[d], b""
+        if not body:
+            return b""
+        stats["n"] += 1
+        out = b""
+        i = 0
+        while i < len(body):
+            if kind == "merge":
+                n = 2 ** 14
+            elif kind == "merge_frag57":
+                n = 57
+            else:
+                n = rng.randint(1, 700)
+            out += wire.record(22, ver_of[d], body[i:i + n])
+            i += n
+        return out
+
+    def merge(rec):
+        """pack the plaintext handshake messages of one flight into as few
+        records as possible (or re-split the packed flight), whatever
+        records the sender used.  A flight ends with ClientHello,
+        HelloRetryRequest, ServerHelloDone or with the first record of
+        another type."""
+        d = rec.dir
+        ver_of[d] = rec.version
+        hold[d] += rec.body
+        buf = hold[d]
+        last = None
+        i = 0
+        while len(buf) - i >= 4:
+            ln = wire.u24(buf, i + 1)
+            if len(buf) - i < 4 + ln:
+                last = None
+                break
+            last = (buf[i], buf[i + 4:i + 4 + ln])
+            i += 4 + ln
+        if i != len(buf):
+            last = None
+        if last is not None and (
+                last[0] in (1, 14) or
+                (last[0] == 2 and last[1][2:34] == wire.HRR_RANDOM)):
+            return emit(d)
+        return b""
+
     def mitm(rec, idx):
         if rec.ssl2:
             return None
+        if kind.startswith("merge") and hold[rec.dir] and \
+                (rec.type != 22 or seen_ccs[rec.dir]):
+            # another kind of record ends the flight: release what is held
+            if rec.type == 20:
+                seen_ccs[rec.dir] = True
+            return emit(rec.dir) + rec.raw
         if rec.type == 20:
             seen_ccs[rec.dir] = True
         # plaintext handshake records only
@@ -139,6 +194,8 @@ def refragment(kind, rng):
         body = rec.body
         if not body:
             return None
+        if kind.startswith("merge"):
+            return merge(rec)
         stats["n"] += 1
         if kind == "coalesce":
             return None     # handled by sender recordSize; noop here
@@ -196,7 +253,7 @@ def run_variant(sc, label, variant, rng, tamper=False):
     ssock = dict(recv_script=S.recv(), send_script=S.send())
     mitm = None
     stats = {"n": 0}
-    if variant.startswith("frag") or variant == "recv1_frag2":
+    if variant.startswith(("frag", "merge")) or variant == "recv1_frag2":
         mitm, stats = refragment(variant, rng)
     if tamper:
         inner = mitm
@@ -288,13 +345,28 @@ class Asm(AsyncStateMachine):
             return False
 
 
-def run_asm(sc, label):
+def run_asm(sc, label, variant="asm"):
     boot.install_vclock(1_800_000_000.0)
     boot.drbg.reseed(label + "/prep")
     st = sc.prepare()
     boot.vclock.advance(5.0)
     boot.drbg.reseed(label + "/main")
-    p = Pair()
+    kw = {}
+    if variant == "asm_wb":
+        # every other send() would block, the others accept 7 bytes
+        def mk():
+            stt = {"n": 0}
+
+            def f(s, ln):
+                stt["n"] += 1
+                return 0 if stt["n"] % 2 else 7
+            return f
+        kw = dict(client_sock=dict(send_script=mk()),
+                  server_sock=dict(send_script=mk()))
+    elif variant == "asm_recv1":
+        kw = dict(client_sock=dict(recv_script=lambda s, w, a: 1),
+                  server_sock=dict(recv_script=lambda s, w, a: 1))
+    p = Pair(**kw)
     fl = sc.flavor(st)
     a_c = Asm(p.c, [("hs", fl.client_gen(p.c)),
                     ("write", b"ping-from-client" * 3), ("read", 48),
@@ -403,14 +475,16 @@ def make_cases(ctx):
         yield "base-" + name, dict(sc=name, variant="baseline")
         vs = list(VARIANTS)
         if ctx.quick:
-            keep = ["recv1", "wb_both", "frag1", "asm", "threads"]
+            keep = ["recv1", "wb_both", "frag1", "asm", "threads", "merge",
+                    "merge_frag57", "asm_wb"]
             rest = [v for v in vs if v not in keep]
             rng.shuffle(rest)
             vs = keep + rest[:9]
         for v in vs:
             if name == "fail-tamper" and (v.startswith(("recsize", "frag",
                                                        "coalesce")) or
-                                          v in ("recv1_frag2", "asm",
+                                          v.startswith(("merge", "asm")) or
+                                          v in ("recv1_frag2",
                                                 "threads", "threads_chunk")):
                 continue    # the tampered record is defined by its framing
             reps = 1 if ctx.quick or v not in ("recv_rand", "send_rand",
@@ -465,10 +539,12 @@ def run_case(ctx, cid, P):
     W = {"case": cid, "scenario": name, "variant": variant}
     if variant == "faithful_sendall":
         return run_faithful(ctx, cid, sc, label, key, W)
-    if variant == "asm":
+    if variant.startswith("asm"):
         if fails and name == "fail-tamper":
             return
-        p, a_c, a_s, views = run_asm(sc, label)
+        p, a_c, a_s, views = run_asm(sc, label, variant)
+        ctx.count("asm_wouldblocks", p.csock.n_wouldblock +
+                  p.ssock.n_wouldblock)
         ctx.ev()
         got = {"c_hs": a_c.connected, "s_hs": a_s.connected,
                "c_view": None, "s_view": None,
@@ -500,7 +576,7 @@ def run_case(ctx, cid, P):
                           "AsyncStateMachine run differs from baseline: %s"
                           % bad)
         ctx.count("asm_runs")
-        ctx.cell("cell", "%s|asm" % name)
+        ctx.cell("cell", "%s|%s" % (name, variant))
         return
     if variant.startswith("threads"):
         if name in ("fail-tamper",):
